@@ -400,6 +400,7 @@ From NV Require Import Scalar.Ops Model.Common Model.Basis Model.Knots Model.Kno
 Local Open Scope nat_scope.
 
 
+
 (* [G] vector_multiply, vector_sum: no condition *)
 Theorem C16_gen_vector_multiply_R : forall (v : list R) (s : R), Linalg.vector_multiply Rops v s = GOk (LinAlg.vector_multiply Rops v s).
 Proof. exact vector_multiply_tie_R. Qed.
